@@ -334,30 +334,46 @@ pub fn tlv_walk(mut tlvs: v2::TypeLengthValues<'_>, bound: usize, extra: usize) 
             }
         }
     }
-    json!({"items": items, "hit_bound": hit_bound})
+    json!({"k": "ok", "items": items, "hit_bound": hit_bound})
 }
 
+/// The views of a v2 header: `{"k":"ok", ...}` or `{"k":"panic","which":accessor}`.
 fn v2_views(h: &v2::Header) -> Value {
-    let g = |r: Result<Value, String>| r.unwrap_or_else(|p| panic_value(&p));
+    let mut m = Map::new();
+    m.insert("k".into(), json!("ok"));
+    let mut put = |name: &str, r: Result<Value, String>| -> Result<(), Value> {
+        match r {
+            Ok(v) => {
+                m.insert(name.into(), v);
+                Ok(())
+            }
+            Err(p) => Err(json!({"k": "panic", "which": name, "msg": p})),
+        }
+    };
     let tb_len = guard(|| h.tlv_bytes().len()).unwrap_or(0);
-    json!({
-        "length": g(guard(|| json!(h.length()))),
-        "len": g(guard(|| json!(h.len()))),
-        "is_empty": g(guard(|| json!(h.is_empty()))),
-        "af": g(guard(|| json!(family_name(h.address_family())))),
-        "ab": g(guard(|| rl(h.address_bytes()))),
-        "tb": g(guard(|| rl(h.tlv_bytes()))),
-        "raw": g(guard(|| rl(h.as_bytes()))),
-        "alen": g(guard(|| json!(h.addresses.len()))),
-        "aempty": g(guard(|| json!(h.addresses.is_empty()))),
-        "afsize": g(guard(|| json!(u16::from(h.address_family())))),
-        "tlvs_len": g(guard(|| json!(h.tlvs().len()))),
-        "tlvs_empty": g(guard(|| json!(h.tlvs().is_empty()))),
-        "tlvs_bytes_eq": g(guard(|| json!(h.tlvs().as_bytes() == h.tlv_bytes()))),
-        "disp": g(guard(|| json!(h.to_string()))),
-        "dbg_ok": guard(|| format!("{:?}", h)).is_ok(),
-        "walk": g(guard(|| tlv_walk(h.tlvs(), tb_len + 6, 2))),
-    })
+    let r = (|| -> Result<(), Value> {
+        put("length", guard(|| json!(h.length())))?;
+        put("len", guard(|| json!(h.len())))?;
+        put("is_empty", guard(|| json!(h.is_empty())))?;
+        put("af", guard(|| json!(family_name(h.address_family()))))?;
+        put("ab", guard(|| rl(h.address_bytes())))?;
+        put("tb", guard(|| rl(h.tlv_bytes())))?;
+        put("raw", guard(|| rl(h.as_bytes())))?;
+        put("alen", guard(|| json!(h.addresses.len())))?;
+        put("aempty", guard(|| json!(h.addresses.is_empty())))?;
+        put("afsize", guard(|| json!(u16::from(h.address_family()))))?;
+        put("tlvs_len", guard(|| json!(h.tlvs().len())))?;
+        put("tlvs_empty", guard(|| json!(h.tlvs().is_empty())))?;
+        put("tlvs_bytes_eq", guard(|| json!(h.tlvs().as_bytes() == h.tlv_bytes())))?;
+        put("disp", guard(|| json!(h.to_string())))?;
+        put("dbg_ok", guard(|| json!(!format!("{:?}", h).is_empty())))?;
+        put("walk", guard(|| tlv_walk(h.tlvs(), tb_len + 6, 2)))?;
+        Ok(())
+    })();
+    match r {
+        Ok(()) => Value::Object(m),
+        Err(p) => p,
+    }
 }
 
 fn v2_ok(h: &v2::Header, full: bool) -> Value {
@@ -415,8 +431,10 @@ pub fn v2_bytes(input: &[u8], full: bool) -> Value {
         drop(scratch);
         if let Some((o, eq)) = owned {
             let mut ow = v2_views(&o);
-            ow["eq"] = json!(eq);
-            ow["addr"] = v2_addr(&o.addresses);
+            if ow["k"] == "ok" {
+                ow["eq"] = json!(eq);
+                ow["addr"] = v2_addr(&o.addresses);
+            }
             out["own"] = ow;
         }
         out
